@@ -347,6 +347,7 @@ def _sync_alt_coq():
         if vfiles(COQ_SRC) == vfiles(COQ):
             break
         time.sleep(1.0)
+    os.utime(COQ)    # rsync -a gave the directory the source's mtime: mark it as in use (use_tree prunes idle alt trees)
     # first use: seed with the compiled files of the main tree to stay incremental
     if not os.path.exists(os.path.join(COQ, ".seeded")):
         sh(["rsync", "-a", "--include=*/", "--include=*.vo", "--include=*.glob", "--include=*.vos", "--include=*.vok", "--include=*.assumptions",
